@@ -229,7 +229,7 @@ func (t *Tree) Extend(parent *Block, o MineOpts) *Block {
 		hdr.Bits = hdr.Bits - 1
 	}
 	target := CompactToBig(hdr.Bits)
-	if w := Work(hdr.Bits); w.BitLen() > 22 {
+	if w := Work(hdr.Bits); w.BitLen() > 18 {
 		panic(DifficultyRunaway(fmt.Sprintf("chainmodel: block at height %d would cost about 2^%d hashes to mine (bits %08x): the scenario let the difficulty run away", height, w.BitLen(), hdr.Bits)))
 	}
 	for nonce := uint32(0); ; nonce++ {
